@@ -1903,3 +1903,166 @@ Proof.
   destruct (Hreach x Hin) as (c & [<-|[]] & R). apply reach_conv in R.
   rewrite (Hdoc oldT x Ht R Hn) in Hn. contradiction.
 Qed.
+
+(* ================================================================== *)
+(* 9. groups: the composition principle                                  *)
+(* ================================================================== *)
+(* ActionGroup.inverse as a top-level function *)
+Fixpoint inv_list (l : list action) (st : state) : res (list action) :=
+  match l with
+  | [] => Ok [] st
+  | a :: r => do accr, s <- inv_list r st; do a', s2 <- inv_action s a; Ok (accr ++ [a']) s2
+  end.
+Lemma inv_action_group l st : inv_action st (AGroup l) = do l', s <- inv_list l st; Ok (AGroup l') s.
+Proof.
+  cbn [inv_action]. f_equal.
+Qed.
+Lemma inv_action_basic b st : inv_action st (ABasic b) = do b', s <- inv_basic st b; Ok (ABasic b') s.
+Proof. reflexivity. Qed.
+
+(* the inverse of the whole list is the inverses of its members, last member first *)
+Lemma inv_list_app l1 l2 st : inv_list (l1 ++ l2) st =
+  do r2, s <- inv_list l2 st; do r1, s' <- inv_list l1 s; Ok (r2 ++ r1) s'.
+Proof.
+  revert st. induction l1 as [|a r IH]; intros st; cbn [app inv_list].
+  - destruct (inv_list l2 st) as [r2 s|e s]; cbn [bind]; [now rewrite app_nil_r|reflexivity].
+  - rewrite IH. destruct (inv_list l2 st) as [r2 s|e s]; cbn [bind]; [|reflexivity].
+    destruct (inv_list r s) as [r1 s'|e s']; cbn [bind]; [|reflexivity].
+    destruct (inv_action s' a) as [a' s2|e s2]; cbn [bind]; [|reflexivity]. now rewrite app_assoc.
+Qed.
+
+Section Compose.
+(* [I] : whatever invariant the states in which inverses get applied are known to satisfy *)
+Variable I : state -> Prop.
+
+(* "a is a recorded transition from x to y that can be undone / redone n times in a row, from any
+   state that satisfies I and looks like the state the (un)doing starts from" *)
+Fixpoint ConsN (n : nat) (a : action) (x y : state) : Prop :=
+  match n with
+  | O => True
+  | S k => forall s, I s -> obs_eq s y ->
+           exists b s', inv_action s a = Ok b s' /\ I s' /\ obs_eq s' x /\ ConsN k b y x
+  end.
+Definition Consistent (a : action) (x y : state) : Prop := forall n, ConsN n a x y.
+
+Lemma ConsN_eqv : forall n a x x' y y', obs_eq x x' -> obs_eq y y' -> ConsN n a x y -> ConsN n a x' y'.
+Proof.
+  induction n as [|k IH]; intros a x x' y y' Hx Hy H; [exact Logic.I|]. cbn [ConsN] in *.
+  intros s Hs Hsy. destruct (H s Hs) as (b & s' & E & Hs' & Hsx & Hc).
+  - eapply obs_eq_trans; [exact Hsy|now apply obs_eq_sym].
+  - exists b, s'. split; [exact E|]. split; [exact Hs'|]. split; [eapply obs_eq_trans; eauto|]. now apply (IH b y y' x x').
+Qed.
+
+(* a chain of recorded transitions x = s0 -a1-> s1 ... -ak-> sk ~ y *)
+Inductive Chain (P : action -> state -> state -> Prop) : list action -> state -> state -> Prop :=
+  | ch_nil x y : obs_eq x y -> Chain P [] x y
+  | ch_cons a l x m y : P a x m -> Chain P l m y -> Chain P (a :: l) x y.
+
+Lemma Chain_mono (P Q : action -> state -> state -> Prop) : (forall a x y, P a x y -> Q a x y) ->
+  forall l x y, Chain P l x y -> Chain Q l x y.
+Proof. intros H l x y C. induction C; [now constructor|econstructor; eauto]. Qed.
+
+Lemma Chain_snoc n l a x m y : Chain (ConsN n) l x m -> ConsN n a m y -> Chain (ConsN n) (l ++ [a]) x y.
+Proof.
+  intros C. revert a y. induction C as [x m Hxm|a0 l x m0 m H0 C IH]; intros a y Ha; cbn [app].
+  - apply ch_cons with (m := y); [|constructor; apply obs_eq_refl].
+    apply (ConsN_eqv n a m x y y); [now apply obs_eq_sym|apply obs_eq_refl|exact Ha].
+  - apply ch_cons with (m := m0); [exact H0|]. now apply IH.
+Qed.
+
+Lemma inv_list_chain k : forall l x y, Chain (ConsN (S k)) l x y -> forall s, I s -> obs_eq s y ->
+  exists l' s', inv_list l s = Ok l' s' /\ I s' /\ obs_eq s' x /\ Chain (ConsN k) l' y x.
+Proof.
+  intros l x y C. induction C as [x y Hxy|a l x m y Ha C IH]; intros s Hs Hsy; cbn [inv_list].
+  - exists [], s. split; [reflexivity|]. split; [exact Hs|]. split; [|constructor; now apply obs_eq_sym].
+    eapply obs_eq_trans; [exact Hsy|now apply obs_eq_sym].
+  - destruct (IH s Hs Hsy) as (accr & s1 & E1 & Hs1 & Hs1m & C1). rewrite E1. cbn [bind].
+    cbn [ConsN] in Ha. destruct (Ha s1 Hs1 Hs1m) as (a' & s2 & E2 & Hs2 & Hs2x & Ca'). rewrite E2. cbn [bind].
+    exists (accr ++ [a']), s2. split; [reflexivity|]. split; [exact Hs2|]. split; [exact Hs2x|]. now apply Chain_snoc with (m := m).
+Qed.
+
+(* C01 for groups: a chain of invertible members is an invertible group *)
+Theorem group_ConsN : forall n l x y, Chain (ConsN n) l x y -> ConsN n (AGroup l) x y.
+Proof.
+  induction n as [|k IH]; intros l x y C; [exact Logic.I|]. cbn [ConsN]. intros s Hs Hsy.
+  destruct (inv_list_chain k l x y C s Hs Hsy) as (l' & s' & E & Hs' & Hs'x & C').
+  exists (AGroup l'), s'. rewrite inv_action_group, E. cbn [bind]. split; [reflexivity|]. split; [exact Hs'|]. split; [exact Hs'x|].
+  now apply IH.
+Qed.
+
+Theorem group_Consistent l x y : Chain Consistent l x y -> Consistent (AGroup l) x y.
+Proof. intros C n. apply group_ConsN. revert C. apply Chain_mono. intros a u v H. apply H. Qed.
+
+(* the shape Props/C02.v's timeline theorem is parametric in *)
+Definition inv_tot (s : state) (a : action) : state * action :=
+  match inv_action s a with Ok b s' => (s', b) | Err _ s' => (s', a) end.
+Definition eqvI (s s' : state) : Prop := obs_eq s s' /\ (I s <-> I s').
+Definition TrI (a : action) (x y : state) : Prop := I x /\ I y /\ Consistent a x y.
+
+Lemma eqvI_refl s : eqvI s s.
+Proof. split; [apply obs_eq_refl|tauto]. Qed.
+Lemma eqvI_trans a b c : eqvI a b -> eqvI b c -> eqvI a c.
+Proof. intros [A1 A2] [B1 B2]. split; [eapply obs_eq_trans; eauto|tauto]. Qed.
+
+Theorem TrI_inv a x y s : TrI a x y -> eqvI s y -> eqvI (fst (inv_tot s a)) x /\ TrI (snd (inv_tot s a)) y x.
+Proof.
+  intros (Ix & Iy & C) [Hsy Hi]. assert (Is : I s) by tauto.
+  destruct (C 1%nat s Is Hsy) as (b & s' & E & Is' & Hs'x & _). unfold inv_tot. rewrite E. cbn [fst snd].
+  split; [split; [exact Hs'x|tauto]|]. split; [exact Iy|]. split; [exact Ix|].
+  intros n. destruct (C (S n) s Is Hsy) as (b2 & s2 & E2 & _ & _ & Cn). rewrite E in E2. injection E2 as <- <-. exact Cn.
+Qed.
+Theorem TrI_src a x x' y : TrI a x y -> eqvI x x' -> TrI a x' y.
+Proof.
+  intros (Ix & Iy & C) [Hxx Hi]. split; [tauto|]. split; [exact Iy|]. intros n.
+  apply (ConsN_eqv n a x x' y y Hxx (obs_eq_refl y)). apply C.
+Qed.
+End Compose.
+
+(* ================================================================== *)
+(* 10. the basic laws under the global invariants of Proofs/EditInv.v    *)
+(* ================================================================== *)
+Lemma del_edge_ok_edge st u v b st1 : do_del_edge st u v = Ok b st1 -> edge st u v.
+Proof. intros H. now destruct (del_edge_char _ _ _ _ _ H) as (_ & He & _). Qed.
+
+Theorem C01_basic_del_edge st u v b st1 :
+  W_dict st -> W_fresh st -> do_del_edge st u v = Ok b st1 -> inverts st st1 b.
+Proof.
+  intros WD WFr H. apply (C01_del_edge_law st u v b st1 WD); [|exact H].
+  apply W_fresh_iou_at; [exact WFr|now apply (del_edge_ok_edge _ _ _ _ _ H)].
+Qed.
+
+Theorem C01_basic_upd_seg st n px (added : bool) b st1 :
+  W_dict st -> rp_disjoint st -> W_fresh st -> W_seg st -> is_node st n ->
+  (forall sg i, seg st = Some sg -> (i < length (frame_of sg (fst px)))%nat -> In (Z.of_nat i) (snd px) ->
+     label_at sg (fst px) i = if added then 0 else n) ->
+  do_upd_seg st n px added = Ok b st1 -> inverts st st1 b.
+Proof.
+  intros WD Hrp WFr WS Hn Hpix H. apply (C01_upd_seg_law st n px added b st1 WD Hrp Hn); [|exact Hpix|exact H].
+  now apply W_fresh_seg_fresh_at.
+Qed.
+
+Theorem C01_basic_del_node st n pxo b st1 :
+  W_dict st -> cfg_ok st -> rp_disjoint st -> W_fresh st -> W_seg st ->
+  isolated st n -> del_node_px_exact st n pxo -> pos_ok st n ->
+  do_del_node st n pxo = Ok b st1 -> inverts st st1 b.
+Proof.
+  intros WD Cfg Hrp WFr WS Hiso Hex Hpos H.
+  assert (Hn : is_node st n).
+  { rewrite do_del_node_eq in H. destruct (lookup n (nodes (g st))) as [d|] eqn:Ed; [|discriminate]. apply is_node_lookup. now exists d. }
+  apply (C01_del_node_law st n pxo b st1 WD Cfg Hrp Hiso); [now apply W_fresh_seg_fresh_at|exact Hex|exact Hpos| |exact H].
+  intros Hs. unfold W_seg in WS. destruct (seg st) as [sg|]; [|congruence]. destruct WS as (_ & _ & W3). now apply W3.
+Qed.
+
+Lemma lin_down_of_W_lin st start : W_lin st -> lin_down st start.
+Proof.
+  intros [L1 _] m Hm. induction Hm as [x y Hxy|x|x y z _ IH1 _ IH2]; [symmetry; now apply L1|reflexivity|congruence].
+Qed.
+
+Theorem C01_basic_upd_track st start newT newL b st1 :
+  cfg_ok st -> W_dict st -> W_forest st -> W_lin st ->
+  (forall oldT m, trk st start = Some oldT -> EditWalk.reach st start m -> trk st m = Some newT -> newT = oldT) ->
+  do_upd_track st start newT newL = Ok b st1 -> inverts st st1 b.
+Proof.
+  intros Cfg WD WF WL Hdoc H. apply (C01_upd_track_law st start newT newL b st1 Cfg WD WF); [now apply lin_down_of_W_lin| |exact H].
+  now apply upd_track_pre_doc.
+Qed.
